@@ -120,3 +120,20 @@ contract(R + "FeatureScenarioLocationCollector.clear", props=["C10", "C17"], par
                   "forall_val(lambda x: not has_key(self.scenario_lines, x)) and "
                   "is_fresh(self.all_scenarios) and len(as_ref(self.all_scenarios, 'set')) == 0 and "
                   "is_fresh(self.selected_scenarios) and len(as_ref(self.selected_scenarios, 'set')) == 0"})
+
+# -- name selection of an outline: selected iff one of its row scenarios is (no shortcut on the template name) ------------
+oracle("name_sel", ["val", "val"], "bool")       # scenario.should_run_with_name_select(config) of a plain scenario
+contract("abs:Scenario.should_run_with_name_select.row", trusted=True, pos_params=["self", "config"], pure=True, result="any",
+         ensures={"value": "truthy(result) == name_sel(config, self)"},
+         doc="name regexp searched in the scenario name (re: A-lib)")
+shape("Configuration", name="any")
+OROWS = "as_list(rows_of(self), 'ref:Scenario')"
+contract("behave.model:ScenarioOutline.should_run_with_name_select", props=["C10"],
+         params={"self": "ref:ScenarioOutline", "config": "ref:Configuration"}, self_classes=["ScenarioOutline"], result="bool",
+         callsites={"scenario.should_run_with_name_select": "abs:Scenario.should_run_with_name_select.row"},
+         modifies=["*._scenarios", "*.index", "*.id", "*.modified"],
+         loops=[Loop(invariant={"no-earlier-row-selected": "forall(lambda k: implies(0 <= k < _i, not name_sel(config, _at(k))))",
+                                "same": "_seq is rows_of(self)"})],
+         ensures={"all-when-no-name-given": "implies(not truthy(config.name), result == True)",
+                  "otherwise-selected-iff-some-row-scenario-matches":
+                  "implies(truthy(config.name), result == exists(lambda k: 0 <= k < len(%s) and name_sel(config, %s[k])))" % (OROWS, OROWS)})
